@@ -1,7 +1,7 @@
 """Property -> rules registry (DESIGN.md sections 0, 4, 5)."""
 import copy
 
-from rules import x_emit, x_macro, x_range, x_split, g_args, g_thread, g_cover, g_alt, g_struct, g_lex, k_keywords, t_tree, x_pp, x_calls, w_api, s_state, p_panic
+from rules import x_emit, x_macro, x_range, x_split, g_args, g_tail, p_errors, g_thread, g_cover, g_alt, g_struct, g_lex, k_keywords, t_tree, x_pp, x_calls, w_api, s_state, p_panic
 
 TRUSTED_BASE = [
     'rustc front end / MIR construction (nightly 1.97) and syn 2 as parsers of the Rust sources',
@@ -14,7 +14,7 @@ _cache = {}
 
 MODULES = {
     'g_thread': g_thread.run, 'g_cover': g_cover.run, 'g_alt': g_alt.run, 'g_struct': g_struct.run,
-    'x_emit': x_emit.run, 'x_macro': x_macro.run, 'x_range': x_range.run, 'x_split': x_split.run, 'g_args': g_args.run, 'g_lex': g_lex.run, 's_state': s_state.run, 'p_panic': p_panic.run,
+    'x_emit': x_emit.run, 'x_macro': x_macro.run, 'x_range': x_range.run, 'x_split': x_split.run, 'g_args': g_args.run, 'g_tail': g_tail.run, 'p_errors': p_errors.run, 'g_lex': g_lex.run, 's_state': s_state.run, 'p_panic': p_panic.run,
     'k_keywords': k_keywords.run, 't_tree': t_tree.run, 'x_pp': x_pp.run, 'x_calls': x_calls.run, 'w_api': w_api.run,
 }
 # rule id -> module that computes it
@@ -22,7 +22,7 @@ RULE_HOME = {
     'G1': 'g_thread', 'G3': 'g_thread',
     'G5': 'g_cover', 'G8': 'g_cover',
     'G6': 'g_alt', 'G7': 'g_alt',
-    'G0': 'g_struct', 'G9': 'g_struct', 'G10': 'g_struct', 'G11': 'g_struct', 'G12': 'g_struct', 'G13': 'g_struct', 'G14': 'g_struct', 'G15': 'g_struct',
+    'G0': 'g_struct', 'G9': 'g_struct', 'G10': 'g_struct', 'G11': 'g_struct', 'G12': 'g_struct', 'G13': 'g_struct', 'G14': 'g_struct', 'G15': 'g_struct', 'G21': 'g_struct',
     'K1': 'k_keywords', 'K2': 'k_keywords', 'K3': 'k_keywords', 'K4': 'k_keywords',
     'T1': 't_tree', 'T2': 't_tree', 'T3': 't_tree', 'G4c': 't_tree', 'T4': 't_tree',
     'X1': 'x_pp', 'X2': 'x_pp', 'X3': 'x_pp', 'X5': 'x_pp', 'X6': 'x_pp', 'X7': 'x_pp',
@@ -30,7 +30,7 @@ RULE_HOME = {
     'W1': 'w_api', 'W2': 'w_api', 'W3': 'w_api', 'W4': 'w_api', 'W5': 'w_api', 'W6': 'w_api',
     'G2': 'g_lex', 'G4': 'g_lex',
     'S1': 's_state', 'S2': 's_state', 'S3': 's_state', 'S4': 's_state', 'S5': 's_state', 'S6': 's_state', 'S7': 's_state',
-    'P1': 'p_panic', 'X4': 'x_emit', 'X13': 'x_macro', 'X14': 'x_macro', 'X15': 'x_macro', 'X16': 'x_macro', 'X17': 'x_range', 'X18': 'x_split', 'X19': 'x_split', 'G6t': 'g_alt', 'G16': 'g_args', 'G17': 'g_args', 'G18': 'g_args',
+    'P1': 'p_panic', 'X4': 'x_emit', 'X13': 'x_macro', 'X14': 'x_macro', 'X15': 'x_macro', 'X16': 'x_macro', 'X17': 'x_range', 'X18': 'x_split', 'X19': 'x_split', 'G6t': 'g_alt', 'G16': 'g_args', 'G17': 'g_args', 'G18': 'g_args', 'G19': 'g_tail', 'G20': 'g_tail', 'P3': 'p_errors',
 }
 
 
@@ -69,7 +69,7 @@ LOOKAHEAD = ['lookahead-no-boundary']
 PROPS = {
     'C01': {
         'rules': [rule('G0'), rule('G1'), rule('G2'), rule('G3'), rule('G4'), rule('G10'), rule('G11'), rule('T1'), rule('T2'), rule('T3'),
-                  rule('G4c'), rule('W4'), rule('W5', drop=['get_str_trim:'])],
+                  rule('G4c'), rule('W4'), rule('W5', drop=['get_str_trim:']), rule('G20')],
         'explanation': 'Structural-induction premises for "the leaves of the tree tile the preprocessed text". Terminals: the token '
                        'helpers keep the lexeme and its trailing trivia (G0, G1 on the helper closures); multi-fragment lexemes join their '
                        'fragments in order and convert the whole joined span (G2, 28 lexeme functions); Locate = byte offset / line / '
@@ -116,14 +116,14 @@ PROPS = {
         'technique': 'call-graph reachability + constructor coverage over the CST type graph; ordered-choice prefix analysis',
     },
     'C03': {
-        'rules': [rule('X1'), rule('X2'), rule('X3'), rule('X17')],
+        'rules': [rule('X1'), rule('X2'), rule('X3'), rule('X17'), rule('X14', keep=['define-record', 'write-conditional:define'])],
         'explanation': 'Every emission site that copies source text records Range(offset, offset+len) of exactly that text under the '
                        'file being read (X1, 21 sites); only new/push/merge write the text and the map, push keys each segment by '
                        '[len before, len before + s.len()) and merge re-bases keys and origins (X3), so keys tile the output; keys '
                        'are never empty (X2), which is what Range\'s overlap-as-equality ordering needs for a 1-byte probe to find '
                        'exactly the segment containing it; text without origin is pushed only by the `__FILE__/`__LINE__ arm and '
                        'expansions carry the origin stored with the macro definition (X3).',
-        'decided': 'X1 X2 X3 X17 (X17: Range::eq / cmp interpreted on all 13 order types of the four endpoints: eq is overlap, cmp is Equal iff overlap else by begin)',
+        'decided': 'X1 X2 X3 X14d X17 (X14d: the Define recorded by a `define — whose body origin is what an expansion is attributed to — is built from that directive and written on every path through the handler; X17: Range::eq / cmp interpreted on all 13 order types of the four endpoints: eq is overlap, cmp is Equal iff overlap else by begin)',
         'not_decided': 'that macro origins are "not before the macro body"; double emissions after string literals (X4, registered with C06)',
         'assumptions': ['BTreeMap look-up with a consistent order on disjoint non-empty ranges'],
         'level_text': 'Exhaustive static audit of all emission sites and writers of the origin map; an emission whose recorded range is '
@@ -146,14 +146,16 @@ PROPS = {
         'technique': 'sibling cross-check + must-precede (guard before effect) analysis on the event loop',
     },
     'C09': {
-        'rules': [rule('X8')],
+        'rules': [rule('X8'), rule('P3')],
         'explanation': 'Termination by ranking over the real call graph of the preprocessor: the recursive component '
                        '{preprocess_str, preprocess_inner, resolve_text_macro_usage} is found from the call graph; every edge '
                        'carries both depth counters unchanged or +1 (no reset, no drop), every simple cycle increments a counter '
                        'whose `> RECURSIVE_LIMIT => ExceedRecursiveLimit` guard lies on the cycle, public entries start the '
                        'counters at 0, the guard operator is `>` (so exactly RECURSIVE_LIMIT levels succeed), RECURSIVE_LIMIT = 64 '
-                       '>= 15. "Wrapped once per include level" is X10 on the include edge (registered with C10).',
-        'decided': 'X8 (as a whole: termination + limit arithmetic)',
+                       '>= 15. "Wrapped once per include level" is X10 on the include edge (registered with C10). The error raised by the '
+                       'guard reaches the caller: at every call site inside the component (and in the façade) the error of a nested run is '
+                       'handed on with `?`, returned, or re-raised by the Err side of a match, never replaced by a default (P3).',
+        'decided': 'X8 P3 (as a whole: termination + limit arithmetic + the limit error is the one reported)',
         'not_decided': 'stack size needed for 64 levels',
         'assumptions': [],
         'level_text': 'A termination argument (ranking function) checked on every edge and cycle of the recursive component, including '
@@ -162,7 +164,7 @@ PROPS = {
         'technique': 'call-graph SCC + per-edge counter transfer analysis (ranking argument)',
     },
     'C10': {
-        'rules': [rule('X9'), rule('X10'), rule('X11'), rule('X12'), rule('X16'), rule('P2')],
+        'rules': [rule('X9'), rule('X10'), rule('X11'), rule('X12'), rule('X16'), rule('P2'), rule('P3')],
         'explanation': 'The live define table goes into the nested run and the returned table is adopted, the included text is merged '
                        '(X9, X10); a failing included run is wrapped in Error::Include and a missing file is File{path tried} (X10, '
                        'P2); nothing opens or probes a file unless the arm guard `!ignore_include` holds (X11); flags are forwarded '
@@ -177,27 +179,32 @@ PROPS = {
         'technique': 'named-parameter threading lint + must-adopt / control-dependence checks',
     },
     'C14': {
-        'rules': [rule('G10'), rule('W3'), rule('W1'), rule('G0'), rule('G14')],
+        'rules': [rule('G10'), rule('W3'), rule('W1'), rule('G0'), rule('G14'), rule('G21')],
         'explanation': 'Strict entries cannot succeed before end of input; bracket helpers demand both delimiters; no closing delimiter or '
                        'block-closing keyword is optional anywhere in the grammar (G10, G0); failures are mapped to Error::Parse '
                        'through the origin map of the parsed text and to Error::Preprocess with the path being read (W3), '
-                       'identically for both grammars (W1).',
-        'decided': 'G10 G0 W3 W1',
-        'not_decided': 'that the reported position is not after the fault (GreedyError run-time maximum); that every deletion makes some '
-                       'production fail',
+                       'identically for both grammars (W1). The preprocessor grammar is made strict by all_consuming in its caller and is '
+                       'itself total (many0 of items), so a preprocessor-level fault is reported where the repetition stopped: at the start '
+                       'of the first item that does not parse, never after the fault (G21).',
+        'decided': 'G10 G0 W3 W1 G21',
+        'not_decided': 'that the Error::Parse position of the main grammar is not after the fault (GreedyError run-time maximum); that every '
+                       'deletion makes some production fail',
         'assumptions': [],
         'level_text': 'Static strictness-structure and error-mapping audit.',
         'level_note': 'partial',
         'technique': 'grammar-shape lint (mandatory closers, eof-terminated entries) + error-mapping site audit',
     },
     'C15': {
-        'rules': [rule('G9'), rule('G11'), rule('W2')],
+        'rules': [rule('G9'), rule('G11'), rule('W2'), rule('G19')],
         'explanation': 'The incomplete entries consist only of combinators that cannot fail (many0, opt) over item parsers that cannot '
                        'succeed on empty input (G9: least-fixed-point nullability over the grammar; 363 repetition sites) and no '
                        'parser raises nom Failure/cut (G11) => never Error::Parse; they are the strict entries with many_till(X, eof) '
                        'relaxed to many0(X) and build the same node (G11) => on an input the strict entry accepts they perform the '
-                       'same item parses; allow_incomplete selects `<entry>_incomplete`, its absence `<entry>` (W2).',
-        'decided': 'G9 G11 W2 (as a whole, given C17 for determinism of item parsers and C01 for losslessness)',
+                       'same item parses; allow_incomplete selects `<entry>_incomplete`, its absence `<entry>` (W2). Trailing unparsable text '
+                       'cannot take the last description with it: in tail position of a description no parser step is applied '
+                       'conditionally on an earlier optional step, so every optional tail is atomic and the description ends before text it '
+                       'cannot use (G19).',
+        'decided': 'G9 G11 W2 G19 (as a whole, given C17 for determinism of item parsers and C01 for losslessness)',
         'not_decided': '',
         'assumptions': ['nom many0/opt never fail on Err::Error'],
         'level_text': 'Totality argument checked statically: combinator totality + grammar nullability fixed point + sibling equality.',
@@ -205,7 +212,7 @@ PROPS = {
         'technique': 'nullability fixed point over the grammar IR + sibling IR equality',
     },
     'C16': {
-        'rules': [rule('T1'), rule('T2'), rule('T3'), rule('T4'), rule('W5', keep=['get_str_trim:', 'get_str:'])],
+        'rules': [rule('T1'), rule('T2'), rule('T3'), rule('T4'), rule('W5', keep=['get_str_trim:', 'get_str:']), rule('G20')],
         'explanation': 'Children are enumerated in source (field) order by every RefNodes conversion (T1) and by the generated '
                        'Node::next of all node types; RefNode::next / into_iter / From<&AnyNode> dispatch every variant to its own '
                        'payload (T2); Iter is constructed with its stack reversed exactly once at each of its construction sites (T3).',
@@ -368,7 +375,7 @@ PROPS = {
         'technique': 'named-parameter threading lint + per-handler emission classes under the flag',
     },
     'C05': {
-        'rules': [rule('X13'), rule('X18'), rule('X19'), rule('G16'), rule('G17', keep=['argument-string:']), rule('X9'), rule('X10'), rule('X4', drop=['strip-', 'double-emission'])],
+        'rules': [rule('X13'), rule('X18'), rule('X19'), rule('G16'), rule('G17', keep=['argument-string:']), rule('P3'), rule('X9'), rule('X10'), rule('X4', drop=['strip-', 'double-emission'])],
         'explanation': 'NARROW claim: the structural clauses of macro expansion, the run-splitting of the macro body, the substitution loop with its '
                        'rewrite table and the nesting discipline of the argument lexer are decided; the expanded text as a value is not. '
                        'Misuse is reported by name: DefineNotFound carries the name that was used, DefineArgNotFound the formal that got '
